@@ -35,6 +35,7 @@
 #include <sys/syscall.h>
 #include <sys/time.h>
 #include <sys/types.h>
+#include <sys/uio.h>
 #include <sys/un.h>
 #include <sys/utsname.h>
 #include <sys/wait.h>
@@ -55,6 +56,7 @@ extern int rec_real_execve(const char *path, char *const argv[], char *const env
 
 static const char *g_ini;
 static int g_timeout_ms = 20000;
+static int g_markers;      /* oneshot mode: bracket the wrapper window with prctl(MARK, 1|2|3) for the tracer */
 
 /* ------------------------------------------------------------------ buffers */
 typedef struct { unsigned char *p; size_t len, cap; } buf_t;
@@ -76,11 +78,24 @@ static void buf_add(buf_t *b, const void *d, size_t n)
 }
 static void buf_u32(buf_t *b, uint32_t v) { buf_add(b, &v, 4); }
 
+/* The harness does its own I/O with readv/writev so that faults a tracer injects persistently into
+ * read()/write() (what snoopy and stdio use) never hit the harness itself. */
+static ssize_t h_write(int fd, const void *d, size_t n)
+{
+    struct iovec iov = { (void *) d, n };
+    return writev(fd, &iov, 1);
+}
+static ssize_t h_read(int fd, void *d, size_t n)
+{
+    struct iovec iov = { d, n };
+    return readv(fd, &iov, 1);
+}
+
 static void write_all(int fd, const void *d, size_t n)
 {
     const unsigned char *p = d;
     while (n) {
-        ssize_t w = write(fd, p, n);
+        ssize_t w = h_write(fd, p, n);
         if (w < 0) { if (errno == EINTR) continue; _exit(96); }
         p += w; n -= (size_t) w;
     }
@@ -89,7 +104,7 @@ static int read_all(int fd, void *d, size_t n)
 {
     unsigned char *p = d;
     while (n) {
-        ssize_t r = read(fd, p, n);
+        ssize_t r = h_read(fd, p, n);
         if (r < 0) { if (errno == EINTR) continue; return -1; }
         if (r == 0) return -1;
         p += r; n -= (size_t) r;
@@ -180,7 +195,7 @@ static int read_file(const char *path, buf_t *out)
     out->len = 0;
     for (;;) {
         buf_reserve(out, 65536);
-        ssize_t r = read(fd, out->p + out->len, 65536);
+        ssize_t r = h_read(fd, out->p + out->len, 65536);
         if (r <= 0) break;
         out->len += (size_t) r;
     }
@@ -196,7 +211,7 @@ static void sinks_drain(void)
         if (s->type == SK_STREAM) {
             for (;;) {
                 buf_reserve(&s->acc, 65536);
-                ssize_t r = read(s->fd, s->acc.p + s->acc.len, 65536);
+                ssize_t r = h_read(s->fd, s->acc.p + s->acc.len, 65536);
                 if (r <= 0) break;
                 s->acc.len += (size_t) r;
             }
@@ -410,6 +425,7 @@ static int the_hook(int kind, const char *path, char *const argv[], char *const 
     long long h1 = heap_now();
     call_t *c = cur_call;
     int saved_errno;
+    if (g_markers) prctl(MARK, 2, 0, 0, 0);
     if (!c) { errno = ENOSYS; return -1; }
     c->hook_calls++;
     c->h1 = h1;
@@ -491,10 +507,12 @@ static void call_run(call_t *c)
     ps0.len = 0;
     if (c->snap) { pthread_mutex_lock(&ev_mutex); state_snapshot(&ps0); pthread_mutex_unlock(&ev_mutex); }
     c->h0 = heap_now();
+    if (g_markers) prctl(MARK, 1, 0, 0, 0);
     errno = 0;
     if (c->kind == 1) ret = execve(c->path, c->argv, c->envp);
     else ret = execv(c->path, c->argv);
     err = errno;
+    if (g_markers) prctl(MARK, 3, 0, 0, 0);
     c->h2 = heap_now();
     cur_call = NULL;
     pthread_mutex_lock(&ev_mutex);
@@ -885,6 +903,21 @@ static void run_ops(op_t *ops, int nops)
             prctl(PR_SET_PDEATHSIG, SIGKILL);
             break; }
         case 'F': op_chain(ops, nops, i); return;
+        case 'p': { /* fill the receive queue of the datagram socket at <path> until EAGAIN (nobody reads it) */
+            char *pth = dupz(op->a[0].p, op->a[0].len);
+            int sfd = socket(AF_UNIX, SOCK_DGRAM | SOCK_NONBLOCK, 0);
+            struct sockaddr_un un; memset(&un, 0, sizeof un); un.sun_family = AF_UNIX;
+            snprintf(un.sun_path, sizeof un.sun_path, "%s", pth);
+            int n = 0;
+            if (connect(sfd, (struct sockaddr *) &un, sizeof un) == 0) {
+                char fill[512]; memset(fill, 'F', sizeof fill);
+                while (n < 100000 && send(sfd, fill, sizeof fill, MSG_DONTWAIT | MSG_NOSIGNAL) > 0) n++;
+            } else ev_error("prefill connect");
+            close(sfd);
+            { ev_t e = {0}; ev_begin(&e, 'p'); ev_int(&e, n); ev_end(&e); ev_free(&e); }
+            /* a sink nobody reads: never drain it in snapshots */
+            for (int k = 0; k < nsinks; k++) if (sinks[k].type == SK_DGRAM) sinks[k].type = 0;
+            free(pth); break; }
         case 'n': { /* private UTS namespace + hostname */
             char *h = dupz(op->a[0].p, op->a[0].len);
             if (unshare(CLONE_NEWUTS) < 0) ev_error("unshare uts");
@@ -934,10 +967,22 @@ static void run_scenario(unsigned char *blob, size_t len)
 /* ------------------------------------------------------------------ main loop */
 static long long now_ms(void) { struct timespec ts; clock_gettime(CLOCK_MONOTONIC, &ts); return ts.tv_sec * 1000LL + ts.tv_nsec / 1000000; }
 
-int main(void)
+int main(int argc, char **argv)
 {
     g_ini = getenv("VERIF_INI");
     if (!g_ini) { fprintf(stderr, "VERIF_INI not set\n"); return 2; }
+    if (argc == 4 && !strcmp(argv[1], "oneshot")) {
+        /* execdrv oneshot <scenario file> <result file>: run the scenario in THIS process (for tracers) */
+        buf_t b = {0};
+        if (read_file(argv[2], &b) < 0) return 2;
+        int rfd = open(argv[3], O_WRONLY | O_CREAT | O_TRUNC, 0666);
+        if (rfd < 0) return 2;
+        if (rfd != RESFD) { dup2(rfd, RESFD); close(rfd); }
+        g_markers = 1;
+        run_scenario(b.p, b.len);
+        fflush(NULL);
+        _exit(0);
+    }
     if (getenv("VERIF_TIMEOUT_MS")) g_timeout_ms = atoi(getenv("VERIF_TIMEOUT_MS"));
     signal(SIGPIPE, SIG_DFL);
     for (;;) {
